@@ -811,7 +811,7 @@ func main() {
 		Name: "c03",
 		Rule: "universe of 16 features (7 points, 4 paths, 1 area, 2 relations, 2 collections; namespaces nsa/nsb/nsc; values 0..30 and 2^40+1) with 0-4 random tags from 5 searchable (#amenity #highway #a @lit @name) + 2 plain keys and 7 values (one containing '=', one empty), 1/4 of the points bare; case kinds round-robin: basic world, BasicMutableWorld after 0-11 random AddTag/RemoveTag/AddFeature edits, MutableOverlayWorld over a basic world after 0-13 edits, OverlayWorld of two basic worlds, MergeFeatures over 0-4 random sorted ID streams; every 25th case (built in child processes) a compact world from one file or merged from 2-3 files (each closed under references, shared features identical); per world 3-8 random query trees (depth <= 3) over all/empty/tagged/keyed/typed/and/or: FindFeatures ID list and (half of them) Query.Matches over every feature; non-trivial = a non-empty result of a query containing typed and (and|or) on a world with >= 4 features",
 		Quick:    2500,
-		Thorough: 40000,
+		Thorough: 20000,
 		Corpus:   corpus,
 		Case:     oneCase,
 	})
